@@ -6,6 +6,7 @@
 package effects
 
 import (
+	"go/token"
 	"go/types"
 	"sort"
 	"strings"
@@ -119,6 +120,14 @@ func (in *Info) step(f *ssa.Function) bool {
 		for _, instr := range b.Instrs {
 			switch i := instr.(type) {
 			case *ssa.Store:
+				if memoInit(i) {
+					// lazy initialisation of a nil field (if x.f == nil { x.f = build(x) }): the
+					// field is recorded as written, so facts about it die at calls, but the
+					// function stays pure for everything else: a second call finds the field set
+					// and changes nothing, and no other memory is touched
+					in.recordField(s, i.Addr)
+					continue
+				}
 				in.mutate(s, i.Addr, true)
 				in.recordField(s, i.Addr)
 			case *ssa.MapUpdate:
@@ -652,6 +661,60 @@ func (in *Info) Reaches(fn *ssa.Function, pred func(*ssa.Function) bool) bool {
 			if pred(c) {
 				return true
 			}
+		}
+	}
+	return false
+}
+
+// memoInit reports whether st stores to a field x.f on a path that is only
+// taken when a load of the same x.f compared equal to nil.
+// MemoInit is memoInit for other packages.
+func MemoInit(st *ssa.Store) bool { return memoInit(st) }
+
+func memoInit(st *ssa.Store) bool {
+	fa, ok := st.Addr.(*ssa.FieldAddr)
+	if !ok {
+		return false
+	}
+	want := ssau.Path(fa)
+	b := st.Block()
+	for d := b; d != nil; d = d.Idom() {
+		id := d.Idom()
+		if id == nil || len(id.Instrs) == 0 {
+			continue
+		}
+		ifi, ok := id.Instrs[len(id.Instrs)-1].(*ssa.If)
+		if !ok {
+			continue
+		}
+		bo, ok := ifi.Cond.(*ssa.BinOp)
+		if !ok || (bo.Op != token.EQL && bo.Op != token.NEQ) {
+			continue
+		}
+		var other ssa.Value
+		switch {
+		case ssau.IsNilConst(bo.Y):
+			other = bo.X
+		case ssau.IsNilConst(bo.X):
+			other = bo.Y
+		default:
+			continue
+		}
+		ld, ok := other.(*ssa.UnOp)
+		if !ok || ld.Op != token.MUL {
+			continue
+		}
+		lfa, ok := ld.X.(*ssa.FieldAddr)
+		if !ok || ssau.Path(lfa) != want {
+			continue
+		}
+		si := 0
+		if bo.Op == token.NEQ {
+			si = 1
+		}
+		// d is the successor on the "is nil" edge and has no other predecessor
+		if id.Succs[si] == d && len(d.Preds) == 1 {
+			return true
 		}
 	}
 	return false
